@@ -6,7 +6,7 @@
 From RV Require Import Base.
 From RV.Model Require Import Utf8 Indexer CodePointSet Insn IR Optimizer Unfold Emit Pike BT.
 From RV.Spec Require Import IRSem IRShape.
-From RV.Proofs Require Import NodeInd PikeCorrect BTDen BTShape IRGroups IRLen.
+From RV.Proofs Require Import NodeInd PikeCorrect BTDen BTShape ListAux IRGroups IRLen.
 
 Section BCorrect.
   Variable ix : indexer.
@@ -690,5 +690,260 @@ Section BNodes.
           { apply Nat.ltb_lt. destruct HL' as [Hl' _]. unfold L1 in Hl'. rewrite set_nth_length in Hl'. lia. }
           rewrite Hid. reflexivity.
     Qed.
+
+    (* ---------------- lookarounds ---------------- *)
+    Lemma push_undo_leads fwd L'' sg0 : forall saved k0 Gc B, (sg0 + k0 + length saved <= length Gc)%nat ->
+      leads fwd (BK L'' Gc (fold_left (fun acc x => BSetCaptureGroup (sg0 + fst x) (snd x) :: acc)
+                                     (combine (seq k0 (length saved)) saved) B))
+                (BK L'' (overwrite Gc (sg0 + k0) saved) B).
+    Proof.
+      induction saved as [|s0 t IH]; intros k0 Gc B Hlen.
+      - simpl. apply leads_refl.
+      - cbn [length seq combine fold_left fst snd overwrite]. simpl in Hlen.
+        eapply leads_trans; [apply (IH (S k0) Gc (BSetCaptureGroup (sg0 + k0) s0 :: B)); lia|].
+        apply back_step. unfold bt_back. rewrite overwrite_length.
+        assert (Hid : (sg0 + k0 <? length Gc)%nat = true) by (apply Nat.ltb_lt; lia). rewrite Hid.
+        replace (sg0 + S k0)%nat with (S (sg0 + k0)) by lia. reflexivity.
+    Qed.
+
+    Lemma bt_look fwd ngr neg bw sg eg c off es code es' pos G l :
+      bt_wf ngr (NLookaround neg bw sg eg c) = true -> (ngr <= length G)%nat -> dgx dg (NLookaround neg bw sg eg c) (es_next_loop es) ->
+      ir_results ix (p_unicode prog) utf16 h (S f) (NLookaround neg bw sg eg c) fwd (pos, G) = Some l ->
+      emit_node utf16 (p_unicode prog) (NLookaround neg bw sg eg c) off (negb fwd) es = Ok (code, es') ->
+      code_at prog off code -> brackets_ok prog es' ->
+      forall L B, (es_next_loop es' <= length L)%nat ->
+      chain dg fwd (off + length code) (leq_out (es_next_loop es) (es_next_loop es') L) (RC off pos L G B) l (Qback L G B).
+    Proof.
+      intros Hwf Hng Hdg Hr He Hc Hbr L B Hlen.
+      simpl in Hwf. apply andb_true_iff in Hwf as [Hwf Hwc]. apply andb_true_iff in Hwf as [Hwf Hcaps].
+      apply andb_true_iff in Hwf as [Hsg Heg]. apply Nat.leb_le in Hsg. apply Nat.leb_le in Heg.
+      pose proof (dgx_look _ _ _ _ _ _ Hdg) as Hdin.
+      cbn [ir_results] in Hr.
+      destruct (ir_results ix (p_unicode prog) utf16 h f c (negb bw) (pos, G)) as [lc|] eqn:Ec; [|discriminate].
+      simpl in He.
+      destruct (emit_node utf16 (p_unicode prog) c (S off) bw es) as [e|[cc ec]] eqn:Eem; simpl in He; [discriminate|].
+      inversion He; subst code es'. clear He.
+      apply code_at_cons in Hc as [Hi0 Hc]. apply code_at_app in Hc as [Hcc Hce]. apply code_at_cons in Hce as [Hie _].
+      pose proof (emit_extends _ _ _ _ _ _ _ _ Eem) as (L1x & _ & _).
+      pose proof (emit_nloops _ _ _ _ _ _ _ _ Eem) as Hnl.
+      set (lo := es_next_loop es) in *. set (hi := es_next_loop ec) in *.
+      set (cont := (off + 1 + length cc + 1)%nat) in *.
+      match goal with |- chain _ _ ?e _ _ _ _ =>
+        replace e with cont by (unfold cont; simpl; rewrite app_length; simpl; lia) end.
+      (* the nested attempt, with the slots of lookarounds inside c as its own don't-care set *)
+      set (dg' := fun i => lslot i c lo).
+      assert (Hdg' : dgx dg' c lo) by (intros i Hi; reflexivity).
+      assert (Eem' : emit_node utf16 (p_unicode prog) c (S off) (negb (negb bw)) es = Ok (cc, ec))
+        by (rewrite Bool.negb_involutive; exact Eem).
+      pose proof (IHf dg' c (negb bw) (S off) es cc ec pos G lc ngr Hwc Hng Hdg' Ec Eem' Hcc Hbr L [BExhausted] Hlen) as Hch.
+      assert (Hconv : forall L', BTCorrect.leq_out dg' lo hi L L' -> leq L L').
+      { intros L' [H1 H2]. split; [exact H1|]. intros i Hi.
+        destruct (Nat.lt_ge_cases i lo) as [Hlt|Hge]; [apply H2; [apply lslot_out; lia|lia]|].
+        destruct (Nat.lt_ge_cases i hi) as [Hlt2|Hge2]; [|apply H2; [apply lslot_out; unfold hi in Hge2; lia|lia]].
+        rewrite Hdin in Hi by (unfold hi in Hlt2; lia). discriminate. }
+      assert (Hld : blook_dir prog (RC off pos L G B) = Some (negb bw)).
+      { unfold blook_dir. simpl. rewrite Hi0. destruct bw; reflexivity. }
+      assert (Hguard : ((eg <? sg)%nat || (length G <? eg)%nat) = false).
+      { apply orb_false_iff. split; apply Nat.ltb_ge; lia. }
+      assert (Hexec : forall nres, bt_next ix prog h nres fwd (RC off pos L G B) =
+                                   bt_lookaround nres L G B pos neg sg eg cont).
+      { intro nres. unfold bt_next. simpl. unfold bt_exec. rewrite Hi0. destruct bw; reflexivity. }
+      set (saved := slice G sg eg) in *.
+      assert (Hegl : (eg <= length G)%nat) by lia.
+      inversion Hch as [c0 Q0 cf Hq Hl0 Hc0 Hl Hq0 | c0 y ys Q0 L1 B1 Hl1 Hfr Hres Hc0 Hl Hq0]; subst.
+      - (* the contents do not match *)
+        destruct Hq as (L' & -> & HL').
+        assert (HLL' : leq L L') by (apply Hconv; apply BTCorrect.leq_leq_out; exact HL').
+        assert (Hden : BDen ix prog h (negb bw) (nested_conf (RC off pos L G B)) (BNoMatch L' G)).
+        { apply Hl0. eapply (BD_done ix prog h (negb bw) _ BBudget); [constructor; reflexivity|reflexivity]. }
+        assert (Hstep : bt_next ix prog h (BNoMatch L' G) fwd (RC off pos L G B) =
+                        BSNext (if neg then RC cont pos L' G B else BK L' G B)).
+        { rewrite Hexec. unfold bt_lookaround. rewrite Hguard. unfold saved.
+          rewrite (splice_slice G G sg eg Hsg Hegl eq_refl (fun i _ => eq_refl)). destruct neg; reflexivity. }
+        destruct neg; inversion Hr; subst l.
+        + eapply chain_weaken; [intros L0 H0; exact H0| |apply (chain_single ix prog h dg fwd cont _ _ pos L' G B)].
+          * intros cf Hcf. eapply Qback_weaken; eauto.
+          * eapply leads_look; eauto.
+          * apply leq_leq_out. exact HLL'.
+        + eapply chain_none; [eapply leads_look; eauto|exact HLL'].
+      - (* the contents match: the first success ends the nested attempt *)
+        destruct y as [py Gy]. cbn [fst snd] in *.
+        assert (HLL1 : leq L L1) by (apply Hconv; exact Hfr).
+        assert (Hden : BDen ix prog h (negb bw) (nested_conf (RC off pos L G B)) (BMatched py L1 Gy)).
+        { apply Hl1. eapply (BD_done ix prog h (negb bw) _ BBudget).
+          - constructor. unfold blook_dir. cbn [bc_mode]. rewrite Hie. reflexivity.
+          - unfold bt_next. cbn [bc_mode bc_loops bc_groups bc_bts]. unfold bt_exec. rewrite Hie. reflexivity. }
+        pose proof (ir_gframe ix (p_unicode prog) utf16 h sg eg f c (negb bw) pos G _ Hcaps Ec) as Hgf.
+        pose proof (Forall_inv Hgf) as [Hgl Hgo]. cbn [snd] in Hgl, Hgo.
+        assert (Hstep : bt_next ix prog h (BMatched py L1 Gy) fwd (RC off pos L G B) =
+                        BSNext (if neg then BK L1 G B else RC cont pos L1 Gy (push_undo_groups sg saved B))).
+        { rewrite Hexec. unfold bt_lookaround. rewrite Hguard. unfold saved.
+          rewrite (splice_slice G Gy sg eg Hsg Hegl Hgl Hgo). destruct neg; reflexivity. }
+        destruct neg; inversion Hr; subst l.
+        + eapply chain_none; [eapply leads_look; eauto|exact HLL1].
+        + eapply (ch_cons ix prog h dg fwd cont _ _ (pos, Gy) [] _ L1 (push_undo_groups sg saved B)).
+          * cbn [fst snd]. eapply leads_look; eauto.
+          * apply leq_leq_out. exact HLL1.
+          * intros L'' HL''. cbn [snd].
+            eapply (ch_nil ix prog h dg fwd cont _ _ _ (BK L'' G B)).
+            -- exists L''. split; [reflexivity|]. eapply leq_trans; eauto.
+            -- unfold push_undo_groups.
+               pose proof (push_undo_leads fwd L'' sg saved 0 Gy B) as Hu.
+               rewrite Nat.add_0_r in Hu. unfold saved in Hu. rewrite (overwrite_slice G Gy sg eg Hsg Hegl Hgl Hgo) in Hu.
+               unfold saved. apply Hu. rewrite slice_length by lia. lia.
+    Qed.
+
+    (* ---------------- class-set strings ---------------- *)
+    Lemma bt_strset fwd icase pos G lo hi : forall alts off endoff code l L B,
+      emit_string_set utf16 (p_unicode prog) (negb fwd) alts icase off endoff = Ok code ->
+      endoff = (off + length code)%nat -> code_at prog off code ->
+      strset_results ix (p_unicode prog) utf16 h alts icase fwd (pos, G) = Some l ->
+      chain dg fwd endoff (leq_out lo hi L) (RC off pos L G B) l (Qback L G B).
+    Proof.
+      induction alts as [|a alts IH]; intros off endoff code l L B He Hend Hc Hr.
+      - simpl in He, Hr. inversion He; inversion Hr; subst code l. apply code_at_cons in Hc as [Hi _].
+        eapply chain_none; [|apply leq_refl].
+        eapply (run_step ix prog h fwd off pos L G B JustFail); [exact Hi|reflexivity|].
+        unfold bt_exec. rewrite Hi. reflexivity.
+      - unfold strset_results in Hr. cbn [obindm] in Hr.
+        assert (Hu : utf16 = false) by (destruct utf16; [discriminate Hr|reflexivity]).
+        rewrite Hu in Hr.
+        destruct (lower_code_point_sequence a icase (p_unicode prog)) as [pieces|] eqn:El; [|discriminate].
+        match type of Hr with match ?r with _ => _ end = _ => destruct r as [ra|] eqn:Era; [|discriminate] end.
+        match type of Hr with match ?r with _ => _ end = _ => destruct r as [rrest|] eqn:Erest; [|discriminate] end.
+        inversion Hr; subst l. clear Hr. cbn [fst] in Era.
+        destruct alts as [|b rest].
+        + cbn [emit_string_set] in He. simpl in Erest. inversion Erest; subst rrest. rewrite app_nil_r.
+          destruct (cp_sequence_code ix prog h utf16 fwd a icase code pieces Hu He El) as (Hs & Hrun).
+          rewrite Hrun in Era. apply results_of_inv in Era as (q & Hq & ->). subst endoff.
+          apply (bt_leaf dg fwd code off pos G q lo hi L B Hc Hs Hq).
+        + rewrite emit_string_set_cons2 in He.
+          destruct (emit_cp_sequence utf16 (p_unicode prog) (negb fwd) a icase) as [e|ca] eqn:Eca; cbn [bindR] in He; [discriminate|].
+          set (next := (off + 2 + length ca)%nat) in *.
+          destruct (emit_string_set utf16 (p_unicode prog) (negb fwd) (b :: rest) icase next endoff) as [e|r] eqn:Er; cbn [bindR] in He; [discriminate|].
+          inversion He; subst code. clear He.
+          apply code_at_cons in Hc as [Hi0 Hc]. apply code_at_app in Hc as [Hca Hc]. apply code_at_cons in Hc as [Hij Hcr].
+          destruct (cp_sequence_code ix prog h utf16 fwd a icase ca pieces Hu Eca El) as (Hs & Hrun).
+          rewrite Hrun in Era. apply results_of_inv in Era as (q & Hq & ->).
+          assert (Hendr : endoff = (next + length r)%nat).
+          { rewrite Hend. unfold next. simpl. rewrite app_length. simpl. lia. }
+          assert (Hcr' : code_at prog next r).
+          { replace next with (S (S off + length ca)) by (unfold next; lia). exact Hcr. }
+          set (B' := BSetPosition next pos :: B).
+          eapply chain_leads.
+          { eapply (run_step ix prog h fwd off pos L G B (Alt next)); [exact Hi0|reflexivity|].
+            unfold bt_exec. rewrite Hi0. reflexivity. }
+          fold B'. eapply chain_app.
+          * eapply (chain_retarget ix prog h dg fwd (S off + length ca)%nat endoff).
+            -- intros p' L' G' B0. eapply (run_step ix prog h fwd _ p' L' G' B0 (Jump endoff)); [exact Hij|reflexivity|].
+               unfold bt_exec. rewrite Hij. reflexivity.
+            -- apply (bt_leaf dg fwd ca (S off) pos G q lo hi L B' Hca Hs Hq).
+          * intros cf (L' & -> & HL).
+            eapply chain_leads; [apply back_step; unfold B'; reflexivity|].
+            eapply chain_weaken; [| |eapply (IH next endoff r rrest L' B Er Hendr Hcr')].
+            -- intros L2 HL2. eapply leq_out_trans; [apply leq_leq_out; exact HL|exact HL2].
+            -- intros cf Hcf. eapply Qback_weaken; eauto.
+            -- unfold strset_results. rewrite Hu. exact Erest.
+    Qed.
+
+    (* leaves through their emitted code *)
+    Lemma bt_leaf' n fwd off es code es' pos G l L B : leaf_code (negb fwd) n <> None ->
+      (forall p gs, ir_results ix (p_unicode prog) utf16 h (S f) n fwd (p, gs) =
+                    match leaf_code (negb fwd) n with
+                    | Some c => results_of (p, gs) (run_insns ix (p_unicode prog) h c fwd p) | None => None end) ->
+      ir_results ix (p_unicode prog) utf16 h (S f) n fwd (pos, G) = Some l ->
+      emit_node utf16 (p_unicode prog) n off (negb fwd) es = Ok (code, es') ->
+      code_at prog off code ->
+      chain dg fwd (off + length code) (leq_out (es_next_loop es) (es_next_loop es') L) (RC off pos L G B) l (Qback L G B).
+    Proof.
+      intros Hl Hshape Hr He Hc.
+      destruct (leaf_code (negb fwd) n) as [c|] eqn:El; [|congruence].
+      pose proof (emit_leaf prog utf16 n (negb fwd) es off c El) as He'. rewrite He in He'. inversion He'; subst c es'.
+      rewrite Hshape in Hr. change (results_of (pos, G) (run_insns ix (p_unicode prog) h code fwd pos) = Some l) in Hr.
+      apply results_of_inv in Hr as (q & Hq & ->).
+      apply (bt_leaf dg fwd code off pos G q _ _ L B Hc (leaf_code_simple _ _ _ El) Hq).
+    Qed.
   End Cases.
+
+  Theorem ball_ok : forall f, bnode_ok f.
+  Proof.
+    induction f as [|f IHf]; intros dg n fwd off es code es' pos G l ng Hwf Hng Hdg Hr He Hc Hbr L B Hlen.
+    - discriminate Hr.
+    - destruct n as [ | |c|bs|bs|cs|l0|a b| | |sol ml|inv ui|id c nm|g ic|b|alts icase|neg bw sg eg c|body mn mx gr egs ege|body mn mx gr].
+      + (* Empty *)
+        simpl in Hr, He. inversion Hr; inversion He; subst. simpl. rewrite Nat.add_0_r.
+        apply chain_single; [apply leads_refl|apply leq_leq_out, leq_refl].
+      + discriminate Hwf.
+      + eapply bt_leaf'; eauto; [discriminate | intros; reflexivity].
+      + eapply bt_leaf'; eauto; [discriminate | intros; reflexivity].
+      + destruct (emit_byte_set bs) as [e|cbs] eqn:Eb; [simpl in He; rewrite Eb in He; discriminate|].
+        eapply bt_leaf'; eauto; [simpl; rewrite Eb; discriminate | intros; reflexivity].
+      + destruct (emit_char_set cs) as [e|ccs] eqn:Eb; [simpl in He; rewrite Eb in He; discriminate|].
+        eapply bt_leaf'; eauto; [simpl; rewrite Eb; discriminate | intros; reflexivity].
+      + (* Cat *)
+        cbn [ir_results] in Hr.
+        eapply chain_weaken; [| |eapply (bt_cat f IHf dg fwd ng l0 off es code es' [(pos, G)] l (RC off pos L G B) (Qback dg L G B) (es_next_loop es) L Hwf Hdg Hr He Hc Hbr)]; auto.
+        apply chain_single; [apply leads_refl|apply leq_leq_out, leq_refl].
+      + eapply (bt_alt f IHf dg fwd ng a b); eauto.
+      + eapply bt_leaf'; eauto; [discriminate | intros; reflexivity].
+      + eapply bt_leaf'; eauto; [discriminate | intros; reflexivity].
+      + (* Anchor *)
+        cbn [ir_results] in Hr. simpl in He. inversion He; subst code es'. clear He.
+        apply code_at_cons in Hc as [Hi _].
+        replace (off + length [if sol then StartOfLine ml else EndOfLine ml])%nat with (S off) by (simpl; lia).
+        eapply (bt_cond dg fwd off pos G _ l); eauto.
+        * destruct sol; reflexivity.
+        * unfold bt_exec. rewrite Hi. destruct sol; [destruct (start_of_line ix ml h pos) as [e|[|]]|destruct (end_of_line ix ml h pos) as [e|[|]]]; reflexivity.
+      + (* WordBoundary *)
+        cbn [ir_results] in Hr. simpl in He. inversion He; subst code es'. clear He.
+        apply code_at_cons in Hc as [Hi _].
+        replace (off + length [if ui then WordBoundaryUnicodeICase inv else WordBoundary inv])%nat with (S off) by (simpl; lia).
+        eapply (bt_cond dg fwd off pos G (do b <- word_boundary ix ui h pos; Ok (negb (Bool.eqb b inv))) l); eauto.
+        * destruct ui; reflexivity.
+        * unfold bt_exec. rewrite Hi. destruct ui; destruct (word_boundary ix _ h pos) as [e|bb]; try reflexivity;
+            cbn [bindR]; destruct (negb (Bool.eqb bb inv)); reflexivity.
+      + eapply (bt_group f IHf dg fwd ng id c nm); eauto.
+      + (* BackRef *)
+        cbn [ir_results] in Hr. simpl in He.
+        destruct (g =? 0) eqn:Eg; [discriminate|]. inversion He; subst code es'. clear He.
+        apply code_at_cons in Hc as [Hi _].
+        replace (off + length [BackRef (N.to_nat (g - 1)) ic])%nat with (S off) by (simpl; lia).
+        destruct (nth_error G (N.to_nat (g - 1))) as [gd|] eqn:Egd; [|discriminate].
+        destruct (gd_range gd) as [[rs re]|] eqn:Er.
+        * rewrite <- (backref_match_prog ix h prog (dummy_prog (p_unicode prog))) in Hr by reflexivity.
+          assert (Hx : bt_exec ix prog h BBudget L G B fwd off pos =
+                       match backref_match ix prog ic fwd h pos rs re with
+                       | Err e => BSDone (BError e) | Ok (Some p') => BSNext (RC (S off) p' L G B) | Ok None => BSNext (BK L G B) end).
+          { unfold bt_exec. rewrite Hi, Egd, Er. destruct (backref_match ix prog ic fwd h pos rs re) as [e|[p'|]]; reflexivity. }
+          eapply (bt_adv dg fwd off pos G (backref_match ix prog ic fwd h pos rs re) l _ _ _ L B Hi eq_refl Hx Hr).
+        * assert (Hx : bt_exec ix prog h BBudget L G B fwd off pos =
+                       match (Ok true : R bool) with
+                       | Err e => BSDone (BError e) | Ok true => BSNext (RC (S off) pos L G B) | Ok false => BSNext (BK L G B) end).
+          { unfold bt_exec. rewrite Hi, Egd, Er. reflexivity. }
+          eapply (bt_cond dg fwd off pos G (Ok true) l _ _ _ L B Hi eq_refl Hx). simpl. exact Hr.
+      + (* Bracket *)
+        destruct (bracket_as_ascii b) as [bm|] eqn:Eb.
+        * eapply bt_leaf'; eauto.
+          -- simpl. rewrite Eb. discriminate.
+          -- intros p gs. simpl. rewrite Eb. reflexivity.
+        * cbn [ir_results] in Hr. rewrite Eb in Hr.
+          simpl in He. rewrite Eb in He. inversion He; subst code es'. clear He.
+          apply code_at_cons in Hc as [Hi _].
+          assert (Hnb : nth_error (p_brackets prog) (length (es_brackets es)) = Some b).
+          { apply Hbr. simpl. rewrite nth_error_app2 by lia. rewrite Nat.sub_diag. reflexivity. }
+          replace (off + length [Bracket (length (es_brackets es))])%nat with (S off) by (simpl; lia).
+          eapply (bt_adv dg fwd off pos G (next_if ix fwd h pos (bracket_matches b)) l); eauto.
+          unfold bt_exec. rewrite Hi. cbn [match1]. rewrite Hnb.
+          destruct (next_if ix fwd h pos (bracket_matches b)) as [e|[p'|]]; reflexivity.
+      + (* StringSet *)
+        cbn [ir_results] in Hr. simpl in He.
+        destruct (string_set_len utf16 (p_unicode prog) (negb fwd) alts icase) as [e|len] eqn:Elen; cbn [bindR] in He; [discriminate|].
+        destruct (emit_string_set utf16 (p_unicode prog) (negb fwd) alts icase off (off + len)) as [e|cs0] eqn:Ec; cbn [bindR] in He; [discriminate|].
+        inversion He; subst code es'. clear He.
+        pose proof (string_set_len_ok prog utf16 _ _ _ _ _ _ _ Ec Elen) as Hl. rewrite <- Hl in Ec.
+        eapply (bt_strset dg fwd icase pos G); eauto.
+      + eapply (bt_look f IHf dg fwd ng neg bw sg eg c); eauto.
+      + eapply (bt_loop f IHf dg fwd ng body mn mx gr egs ege); eauto.
+      + discriminate Hwf.
+  Qed.
 End BNodes.
